@@ -1,5 +1,6 @@
 import WgslVerif.Check.Gen
 import WgslVerif.Props.C02
+import WgslVerif.Check.C03
 namespace WgslVerif
 namespace CheckC02
 open WgpuBinding
@@ -26,7 +27,7 @@ def verdicts (m : Module) (o : Out) : List (Nat × Nat × Option String × Optio
 
 def check (c : Ctx) (r : Run) : Verdict :=
   let (cmp, _) := CheckGen.compare c r
-  let corr := CheckGen.corrFor cmp ["group-numbers", "group-entry-types", "pipeline-groups"]
+  let corr := CheckGen.corrFor cmp ["group-numbers", "group-entry-types", "group-visibility", "pipeline-groups"]
   match c.module, r.real with
   | some m, .ok o =>
     if c.valid && !resourceShapesB m then
@@ -34,7 +35,19 @@ def check (c : Ctx) (r : Run) : Verdict :=
     let vs := verdicts m o
     let bad := vs.filter fun v => v.2.2.1.isSome || v.2.2.2.isSome
     let spec : Status :=
-      if !decide (C02PipelineOk m o) then
+      -- "each resource the entry point uses ... is visible to that stage": a stage that statically uses the variable
+      -- (`globalShaderStages`, proved to be that set by C03_visibility under CallsEarlier) is missing from the real entry's visibility
+      let gs := globalShaderStages m
+      let missingVis := if !callsEarlierB m then [] else o.groups.flatMap fun g => g.entries.filterMap fun ent =>
+        match CheckC03.nameAt m g.no ent.binding with
+        | none => none
+        | some n =>
+          let exp := gs.getD n
+          if (exp.v && !ent.vis.v) || (exp.f && !ent.vis.f) || (exp.c && !ent.vis.c) then
+            some s!"visibility#used-but-not-visible: {n} @group({g.no}) @binding({ent.binding}) is used by stages {CheckC03.stagesStr exp}, the layout entry is visible to {CheckC03.stagesStr ent.vis}"
+          else none
+      if let e :: _ := missingVis then .fail e
+      else if !decide (C02PipelineOk m o) then
         .fail s!"pipeline#group-not-at-own-index: create_pipeline_layout lists the group layouts as {o.pipelineGroups}; a resource variable's @group is not at its own index"
       else if decide (C02Ok m o) then .ok else
       match bad with
